@@ -267,8 +267,14 @@ func (d *driver) runMultiproof(w emitter, pid int, pr *proofProg) {
 		}
 		fs[i] = polys[o.P]
 		zs[i] = uint8(o.Z)
-		y := polys[o.P][o.Z]
-		ys[i] = &y
+		if o.Share > 0 {
+			// the calling pattern of the repository's own fuzz tests and benchmark: the claimed value is a pointer INTO the polynomial
+			// (so openings of the same polynomial at the same index share one pointer, and ys aliases fs)
+			ys[i] = &polys[o.P][o.Z]
+		} else {
+			y := polys[o.P][o.Z]
+			ys[i] = &y
+		}
 	}
 	polyTab := make([][][]int, len(polys))
 	for i := range polys {
